@@ -49,6 +49,7 @@ package set
 
 //@ func NewSet props C16,C13
 //@   ensures fresh(result) && fresh(result.members)
+//@   ensures allocd: allocated(result) && allocated(result.members)
 //@   ensures inv(result, alloc) && inv(result, nonnil) && inv(result, len)
 //@   ensures members: forall x string :: has(result.members, x) <==> (exists k int :: 0 <= k && k < len(elems) && elems[k] == x)
 //@   modifies nothing
@@ -81,3 +82,33 @@ package set
 //@   ensures wf: inv(result, alloc) && inv(result, nonnil) && inv(result, len)
 //@   ensures members: forall x string :: has(result.members, x) <==> (has(set.members, x) && !(exists i int :: 0 <= i && i < len(others) && has(others[i].members, x)))
 //@   modifies nothing
+
+// ---- set command handlers ---------------------------------------------------------------------
+//@ spec tkey(params internal.HandlerFuncParams) string = old(params.Command[1])
+//@ spec targ(params internal.HandlerFuncParams, i int) string = old(params.Command[i])
+//@ spec tlive(params internal.HandlerFuncParams, k string) bool = sugardb.livekey($srv, dbof(params.Context), k, $now)
+//@ spec tval(params internal.HandlerFuncParams, k string) any = $srv.store[dbof(params.Context)][k].Value
+//@ spec tstore(params internal.HandlerFuncParams) map[string]internal.KeyData = $srv.store[dbof(params.Context)]
+//@ spec isset(v any) bool = istype(v, "*Set")
+//@ spec asset(v any) *Set = astype(v, "*Set")
+//@ spec onset(params internal.HandlerFuncParams, k string) bool = old(tlive(params, k)) && old(isset(tval(params, k)))
+// (stated over the sub-slice the handlers pass on, so that it matches the contracts of Set.Add / Set.Remove / NewSet)
+//@ spec tnamed(params internal.HandlerFuncParams, x string, from int) bool = exists i int :: 0 <= i && i < len(params.Command) - from && old(params.Command[from:][i]) == x
+//@ spec twf(s *Set) bool = s != nil && !fresh(s) && inv(s, alloc) && inv(s, nonnil) && inv(s, len) && !fresh(s.members)
+//@ spec tpure(params internal.HandlerFuncParams) bool = forall k string :: has(tstore(params), k) ==> old(has(tstore(params), k)) && tstore(params)[k] == old(tstore(params)[k])
+//@ spec tothers(params internal.HandlerFuncParams, a string, b string) bool = forall k string :: k != a && k != b && has(tstore(params), k) ==> old(has(tstore(params), k)) && tstore(params)[k] == old(tstore(params)[k])
+// the members of the set stored under k on entry stay what they were
+//@ spec tsame(params internal.HandlerFuncParams, k string) bool = onset(params, k) ==> (forall x string :: has(old(asset(tval(params, k))).members, x) <==> old(has(asset(tval(params, k)).members, x)))
+
+// SADD key member [member ...]: the named members are added; the reply is the number of members that were not there before.
+//@ func handleSADD props C16,C12
+//@   requires generic.henv(params)
+//@   assumes own-cmd: len(params.Command) >= 2 ==> disjointarr(params.Command, $srv.keysWithExpiry.keys[dbof(params.Context)])
+//@   assumes stored-wf: len(params.Command) >= 2 && isset(tval(params, tkey(params))) ==> twf(asset(tval(params, tkey(params))))
+//@   ensures {C16} arity: len(params.Command) < 3 ==> result1 != nil
+//@   ensures {C16} created: result1 == nil && !old(tlive(params, tkey(params))) ==> isset(tval(params, tkey(params))) && asset(tval(params, tkey(params))) != nil
+//@   ensures {C16} created-members: result1 == nil && !old(tlive(params, tkey(params))) ==> (forall x string :: has(asset(tval(params, tkey(params))).members, x) <==> tnamed(params, x, 2))
+//@   ensures {C16} created-reply: result1 == nil && !old(tlive(params, tkey(params))) ==> bstr(result0) == ":" ++ (itoa(len(asset(tval(params, tkey(params))).members)) ++ "\r\n")
+//@   ensures {C16} wrongtype: len(params.Command) >= 3 && old(tlive(params, tkey(params))) && !old(isset(tval(params, tkey(params)))) ==> result1 != nil && tval(params, tkey(params)) == old(tval(params, tkey(params)))
+//@   ensures {C16} added: result1 == nil && onset(params, tkey(params)) ==> tval(params, tkey(params)) == old(tval(params, tkey(params))) && (forall x string :: has(asset(tval(params, tkey(params))).members, x) <==> (old(has(asset(tval(params, tkey(params))).members, x)) || tnamed(params, x, 2))) && bstr(result0) == ":" ++ (itoa(len(asset(tval(params, tkey(params))).members) - old(len(asset(tval(params, tkey(params))).members))) ++ "\r\n")
+//@   ensures {C16,C20} others: tothers(params, tkey(params), tkey(params))
